@@ -4,7 +4,7 @@
    The verification predicate is the oracle table of the case: the list of beacons for which an
    independent scheme.VerifyBeacon call (outside the code under test) returned nil. *)
 From Coq Require Import ZArith List Bool.
-From DV Require Import Model.Sync Gen.Follow Corr.CorrBase.
+From DV Require Import Model.Sync Gen.Follow Gen.Consts Corr.CorrBase.
 Import ListNotations.
 Open Scope Z_scope.
 
@@ -103,6 +103,11 @@ Inductive scase :=
 (* SyncManager.Run driven by requests; one element of [attempts] per renewal *)
 | CRun (chained : bool) (bk : backend) (valid : list beacon) (base : raw) (upTo : Z)
        (attempts : list (list peer_c)) (x : obs)
+(* SyncManager.Run driven by one request per period for [nticks] periods (what Handler.run does
+   while the node is behind); [attempts]: the node lists of the Syncs Run starts, in order;
+   [inflight]: a Sync was still blocked on a silent peer at the end *)
+| CTicks (chained : bool) (bk : backend) (valid : list beacon) (base : raw) (upTo : Z)
+         (nticks : nat) (attempts : list (list peer_c)) (inflight : bool) (x : obs)
 (* BeaconProcess.StartFollowChain on a fresh node: [hash] = the operator's chain hash ([1] names
    the real chain's information, whose oracle table is [valid]; any other hash names foreign
    information, oracle table [valid2]); [answers]: per peer, the ChainInfo answer *)
@@ -149,6 +154,17 @@ Definition ok (c : scase) : bool :=
       | Some st => obs_ok chained false
                      (run_attempts (vfy_tab valid) chained bk SkAppend upTo st
                         (map (map to_peer) attempts)) x
+      end
+  | CTicks chained bk valid base upTo nticks attempts inflight x =>
+      match open_store base with
+      | None => false
+      | Some st =>
+          let s := run_ticks (vfy_tab valid) chained bk SkAppend sync_expiry_factor upTo nticks 0
+                     (mkTk st false 0 [] [] (map (map to_peer) attempts)) in
+          let res := if (0 <? upTo) && (upTo <=? head_of (s_base (tk_st s))) then SyncOk
+                     else if tk_inflight s then SyncBlocked ECanceled else SyncErr EFailedAll in
+          Bool.eqb (tk_inflight s) inflight &&
+          obs_ok chained false (mkSy res (tk_st s) (tk_ws s) (tk_reqs s)) x
       end
   | CFollow chained bk valid valid2 hash answers upTo cur attempts res progress dump =>
       let o := follow (fun i => vfy_tab (if bytes_eqb (i_hash i) [1] then valid else valid2))
